@@ -250,3 +250,21 @@ func reversedLoops(n int, xs []int) int {
 	}
 	return s
 }
+
+// returns whose results depend on the evaluation order (an argument is mutated through its address)
+func bumpShapes(x *int) int {
+	*x += 10
+	return *x
+}
+
+func orderDependentShapes(a, b, c, d int) (int, int, int, int, int, int, int, int) {
+	f := func() (int, int) { return a, bumpShapes(&a) }
+	g := func() (int, int) { return bumpShapes(&b), b }
+	h := func() (int, int) { return c, bumpShapes(&d) }
+	k := func() (int, int) { return d, bumpShapes(&d) }
+	a1, a2 := f()
+	b1, b2 := g()
+	c1, c2 := h()
+	d1, d2 := k()
+	return a1, a2, b1, b2, c1, c2, d1, d2
+}
